@@ -656,6 +656,11 @@ def r8_context_covers_iteration(prog, rep: Report, pf: PoolFacts):
         for name, f in sorted(c.methods.items()):
             if f.self_name is None:
                 continue
+            # the method with the pool's private helpers read in place: the `with` may live in a shared private generator
+            # (`yield from self._while_replacing(super().imap(data, chunk_size))`)
+            f = prog.method_view(c, name) or f
+            from ..flow import Flow as _Flow
+            vflow = _Flow(f.node)
             withs = [w for w in ast.walk(f.node) if isinstance(w, ast.With)]
             for w in withs:
                 # delegated generator calls inside the block
@@ -665,6 +670,15 @@ def r8_context_covers_iteration(prog, rep: Report, pf: PoolFacts):
                     tgt = sc.resolve_call(call)
                     if isinstance(tgt, Func) and tgt.is_generator:
                         gens.append(call)
+                # results = super().imap(data, chunk_size)  before the block (a generator object: nothing runs yet), and the name
+                # iterated / returned inside it
+                for nm in [x for st in w.body for x in ast.walk(st) if isinstance(x, ast.Name) and isinstance(x.ctx, ast.Load)]:
+                    if isinstance(getattr(nm, "_parent", None), (ast.YieldFrom, ast.For, ast.Return)):
+                        bound = vflow.expand(nm)
+                        if isinstance(bound, ast.Call):
+                            tgt = sc.resolve_call(bound)
+                            if isinstance(tgt, Func) and tgt.is_generator:
+                                gens.append(nm)
                 if not gens:
                     # a delegate handed in as a parameter (`yield from plain_call(data, chunk_size)` in a shared helper): its
                     # generator is consumed by the yield from just the same
